@@ -147,7 +147,14 @@ def checkRig (prop : String) (input : Json) (impl : Json) : PropOut := Id.run do
       let id := (jnat rq "id").toOption.getD 0
       let kind := jstrD rq "kind"
       let r := parseReq rq
-      let want := expectedView (serve enums routes r)
+      let want0 := expectedView (serve enums routes r)
+      -- routesConfig.validateResponsePayload: a declared struct result is validated before it is sent; the rig's
+      -- controllers return zero values, and `Item.Name` is required, so such a route answers 500 AFTER the call
+      let validateResp := jboolD ((input.getObjVal? "project").toOption.bind (·.getObjVal? "config" |>.toOption) |>.getD Json.null) "validateResponsePayload"
+      let returnsItem := match findRoute routes r with
+        | some (sr, _) => p.controllers.any fun c => c.methods.any fun pm => c.name = sr.ctrl && pm.m.name = sr.r.opId && pm.m.results.head? = some "Item"
+        | none => false
+      let want := if validateResp && returnsItem && want0.1 = "200" then ("500", want0.2) else want0
       notes := notes ++ ["d:kind-" ++ (kind.splitOn ":").headD kind, "d:expect-" ++ want.1]
       let encodedPath := ((jstrD rq "path").splitOn "?").headD "" |>.any (· = '%')
       let emptyHeader := r.headers.any fun (_, v) => v.isEmpty
